@@ -20,7 +20,11 @@ func (fr *Frame) value(v ssa.Value) Val {
 	case *ssa.Const:
 		return fr.constVal(c)
 	case *ssa.Global:
-		return &Ptr{glob: c.Pkg.Pkg.Path() + "." + c.Name()}
+		gs := ""
+		if pt, ok := c.Type().Underlying().(*types.Pointer); ok {
+			gs = ex.P.sorts.sortOf(pt.Elem())
+		}
+		return &Ptr{glob: c.Pkg.Pkg.Path() + "." + c.Name(), globSort: gs}
 	case *ssa.Function:
 		return &FuncVal{fn: c}
 	case *ssa.Builtin:
@@ -164,7 +168,7 @@ func (bs *blockState) load(p *Ptr, pos token.Pos) Val {
 		if t, ok := ex.P.globals[p.glob]; ok {
 			return t
 		}
-		return ex.P.globalValue(ex, p.glob, pos)
+		return ex.P.globalValue(ex, p.glob, p.globSort, pos)
 	}
 	if p.slice != nil {
 		t, err := indexTerm(*p.slice, p.idx)
